@@ -264,6 +264,15 @@ func (t *Table) GetLastAccess(hkey uint64) (int64, error) {
 	return int64(binary.BigEndian.Uint64(t.memory[offset : offset+8])), nil
 }
 
+// copyValue returns a copy of the given part of the table's memory. The entries handed
+// out by Get and Scan must not share memory with the table: the caller is allowed to modify
+// the returned value, and the table overwrites its memory after it has been recycled.
+func copyValue(src []byte) []byte {
+	dst := make([]byte, len(src))
+	copy(dst, src)
+	return dst
+}
+
 func (t *Table) get(offset uint64) storage.Entry {
 	e := &entry.Entry{}
 	// In-memory structure:
@@ -295,7 +304,7 @@ func (t *Table) get(offset uint64) storage.Entry {
 
 	vlen := binary.BigEndian.Uint32(t.memory[offset : offset+4])
 	offset += 4
-	e.SetValue(t.memory[offset : offset+uint64(vlen)])
+	e.SetValue(copyValue(t.memory[offset : offset+uint64(vlen)]))
 	return e
 }
 
@@ -336,7 +345,7 @@ func (t *Table) Get(hkey uint64) (storage.Entry, error) {
 
 	vlen := binary.BigEndian.Uint32(t.memory[offset : offset+4])
 	offset += 4
-	e.SetValue(t.memory[offset : offset+uint64(vlen)])
+	e.SetValue(copyValue(t.memory[offset : offset+uint64(vlen)]))
 
 	return e, nil
 }
